@@ -53,9 +53,10 @@ example :
     some (some [97, 10], some [97, 10], some [98, 98, 10],
           [2, 0, 0, 0, 0, 0, 0, 0, 97, 10, 3, 0, 0, 0, 0, 0, 0, 0, 98, 98, 10]) := by decide
 
-/-- an object destroyed before its first pass ended leaves an undetermined file (finding C10-F3) -/
+/-- finding C10-F3 (repaired by fixes/C10-3.diff): an object destroyed right after construction, or after one
+record, leaves the COMPLETE cache file (the pinned destructor left an empty / truncated one) -/
 example : (match cOpen none cs2 with
     | .ok s0 => cClose s0
-    | _ => some []) = none := by decide
+    | _ => none) = some [2, 0, 0, 0, 0, 0, 0, 0, 97, 10, 3, 0, 0, 0, 0, 0, 0, 0, 98, 98, 10] := by decide
 
 end DmlcModel.Props.C10
